@@ -138,7 +138,7 @@ def canon_name(csg, psgs):
     return csg + ''.join('(%s)' % k if c[k] == 1 else '(%s)%d' % (k, c[k]) for k in sorted(c))
 
 
-def declared(inp):
+def declared(inp, parts=False):
     """What the scheme file declares for this molecule, written from the property text (no loop of the implementation):
     each atom is classified by the one centre pattern matching it; each atom with a named centre contributes the group of its
     centre name and the multiset of its neighbours' peripheral names; each correction descriptor counts once per distinct set
@@ -173,6 +173,8 @@ def declared(inp):
                 out[name] += c
         return out
     g, d = subst(groups), subst(descs)
+    if parts:
+        return {'ok': (dict(g), dict(d))}
     res = dict(g)
     res.update(d)       # a correction descriptor named like a group replaces it (the mapping is a dict)
     return {'ok': {k: Fraction(v) for k, v in res.items()}}
